@@ -271,6 +271,68 @@ def eval_many_runs(case):
     return OK(outcome=(R, pi, fail), nontrivial=True, evals=nev)
 
 
+SHORT = {'amp_fraction': 'amp_fraction_threshold', 'amp_consistency': 'amp_consistency_threshold',
+         'period_consistency': 'period_consistency_threshold', 'monotonicity': 'monotonicity_threshold', 'min_n_cycles': 'min_n_cycles'}
+OBJ_THR = [{'amp_fraction': .1, 'amp_consistency': .4, 'period_consistency': .6, 'monotonicity': .4, 'min_n_cycles': 2},
+           {'monotonicity': .4},                                  # partial, short name: the others keep their documented defaults
+           {'monotonicity_threshold': .3, 'min_n_cycles': 1},     # partial, full names
+           {'amp_consistency': .2, 'monotonicity_threshold': .5, 'min_n_cycles': 2}]
+
+
+def eval_object_routes(case):
+    """Thresholds given to the OBJECTS (short names, partial dictionaries) and per-signal threshold lists of compute_features_3d:
+    the labels of every table follow the rule for the threshold vector that was given for it."""
+    import contextlib, io
+    from bycycle import Bycycle, BycycleGroup
+    from bycycle.group import compute_features_3d
+    from bcmc import sched
+    from bcmc.ref.burst import ref_labels_from_table
+    letters, centre = case[:-1], case[-1]
+    w = ''.join(letters)
+    sig = S.word_signal(w)
+    from bcmc.pipe import precondition
+    if not precondition(sig, S.resolve(('trough',) if centre == 'trough' else ()))[0]:
+        return SKIP('precondition')
+    nev, nt = 0, False
+    full = [{SHORT.get(k, k): v for k, v in t.items()} for t in OBJ_THR]
+    for t, f in zip(OBJ_THR, full):
+        bm = Bycycle(center_extrema=centre, thresholds=dict(t))
+        bm.fit(np.array(sig), 64, (6, 14))
+        nev += 1
+        exp = ref_labels_from_table(bm.df_features, 'cycles', f)
+        got = [bool(x) for x in bm.df_features['is_burst']]
+        if got != exp:
+            return VIOL({'kind': 'object-labels', 'centre': centre, 'short_names': any(k in SHORT and k != 'min_n_cycles' for k in t), 'partial': len(t) < 5},
+                        'Bycycle(thresholds=%r).fit: labels are not the rule for these thresholds (missing ones at their defaults)' % (t,),
+                        expected=exp, observed={'got': got, 'word': w}, evals=nev)
+        nt = nt or any(got)
+    # per-signal threshold lists, non-square 3-D array, the same recording in every slot (scaled)
+    sigs = np.array([[sig * (1 + i * 3 + j) for j in range(3)] for i in range(2)])
+    kws = [[{'center_extrema': centre, 'threshold_kwargs': dict(full[(i * 3 + j) % 4])} for j in range(3)] for i in range(2)]
+    with sched.patched_pool(None), contextlib.redirect_stdout(io.StringIO()):
+        dfs = compute_features_3d(sigs, 64, (6, 14), compute_features_kwargs=kws, axis=(0, 1), n_jobs=1)
+        bg = BycycleGroup(center_extrema=centre, thresholds=dict(OBJ_THR[0]))
+        bg.fit(sigs[0], 64, (6, 14), n_jobs=1)
+    for i in range(2):
+        for j in range(3):
+            nev += 1
+            exp = ref_labels_from_table(dfs[i][j], 'cycles', full[(i * 3 + j) % 4])
+            got = [bool(x) for x in dfs[i][j]['is_burst']]
+            if got != exp:
+                return VIOL({'kind': 'group-labels', 'centre': centre, 'site': 'compute_features_3d(axis=(0,1))'},
+                            'table [%d][%d]: labels are not the rule for the thresholds given for that position' % (i, j),
+                            expected=exp, observed={'got': got, 'word': w}, evals=nev)
+    for j in range(3):
+        nev += 1
+        exp = ref_labels_from_table(bg.df_features[j], 'cycles', full[0])
+        got = [bool(x) for x in bg.df_features[j]['is_burst']]
+        if got != exp:
+            return VIOL({'kind': 'group-labels', 'centre': centre, 'site': 'BycycleGroup.fit', 'short_names': True},
+                        'BycycleGroup(thresholds=short names).fit: labels of row %d are not the rule for these thresholds' % j,
+                        expected=exp, observed={'got': got, 'word': w}, evals=nev)
+    return OK(outcome=(w, centre), nontrivial=nt, evals=nev)
+
+
 EP_THR = [dict(S.T0), dict(S.T1), dict(S.T0, min_n_cycles=1), dict(S.T1, min_n_cycles=2, amp_consistency_threshold=.1)]
 
 
@@ -324,6 +386,9 @@ def spaces(tier, seed):
                             describe='synthetic tables with up to %d runs of qualifying cycles x 4 run-length patterns x 3 ways of failing, volt_amp over 10 decades' % Rs[-1]))
     out.append(ProductSpace('words-giant-W(3,5)-regions', S.word_dims(['a', 'd', 'G'], 5), WordRegions('quick'),
                             describe='words with giant cycles (artefacts 10^5 times larger than the rhythm): pipeline tables x region grids'))
+    nl = 5 if tier == 'quick' else 6
+    out.append(ProductSpace('object-routes-W(3,%d)' % nl, S.word_dims(['a', 'd', 'n'], nl) + [['peak', 'trough']], eval_object_routes,
+                            describe='thresholds through Bycycle / BycycleGroup (short names, partial dictionaries) and per-signal lists of compute_features_3d'))
     ep = [(c, E, r) for c in ('peak', 'trough') for E in (32, 16) for r in (0, 1)]
     out.append(ProductSpace('epoch-list-W(2,8)', [['a', 'd']] * 8 + [ep], eval_epoch_list,
                             describe='compute_features_2d(axis=None) with one option dict per epoch (epochs of 4 / 2 cycles): labels of every '
